@@ -191,7 +191,29 @@ func main() {
 	cs := o.Load(svc)
 	vc := cs.Func("Store.validateCommand")
 	vb := body(vc)
-	o.Set("propose.stampsProposer", svc+":validateCommand", fmt.Sprint(cs.HasStmt(vb, "req.Header.PeerId = peer.ID()")), vc != nil, "true")
+	{
+		// Header.PeerId is overwritten unconditionally: the assignment is a statement of the function
+		// body itself (not under an if that keeps a client-supplied value) and the only write to it
+		top, writes := false, 0
+		if vc != nil && vc.Body != nil {
+			for _, st := range vc.Body.List {
+				if cs.Src(st) == "req.Header.PeerId = peer.ID()" {
+					top = true
+				}
+			}
+			ast.Inspect(vc.Body, func(x ast.Node) bool {
+				if as, ok := x.(*ast.AssignStmt); ok {
+					for _, l := range as.Lhs {
+						if strings.HasSuffix(cs.Src(l), "Header.PeerId") {
+							writes++
+						}
+					}
+				}
+				return true
+			})
+		}
+		o.Set("propose.stampsProposer", svc+":validateCommand", fmt.Sprint(top && writes == 1), vc != nil, "true")
+	}
 	{
 		op, ok := cs.FindCmp(vb, "status.RaftState", "myraft.StateLeader")
 		konst := "leader"
@@ -466,6 +488,72 @@ func main() {
 		o.Set("peer.readyOrder", pg+":handleReady", strings.Join(names, ","), len(names) == 4, "readStates,beginApply,apply,finishApply")
 	}
 
+	// ------------------------------------------------------------ handleReady hands every committed entry to apply exactly once
+	{
+		hr := pf.Func("Peer.handleReady")
+		hb := body(hr)
+		nApply, argOK, lits, appends, sliced := 0, true, 0, 0, false
+		var rangeEnd, applyPos token.Pos = -1, -1
+		if hb != nil {
+			ast.Inspect(hb, func(x ast.Node) bool {
+				switch n := x.(type) {
+				case *ast.CallExpr:
+					if pf.Src(n.Fun) == "p.apply" {
+						nApply++
+						applyPos = n.Pos()
+						if len(n.Args) != 1 || pf.Src(n.Args[0]) != "toApply" {
+							argOK = false
+						}
+					}
+				case *ast.FuncLit:
+					lits++
+				case *ast.RangeStmt:
+					if pf.Src(n.X) == "rd.CommittedEntries" {
+						rangeEnd = n.End()
+					}
+				case *ast.AssignStmt:
+					if pf.Src(n) == "toApply = append(toApply, entry)" {
+						appends++
+					}
+				case *ast.SliceExpr:
+					if pf.Src(n.X) == "toApply" {
+						sliced = true
+					}
+				}
+				return true
+			})
+		}
+		// shape: entries are collected by one append inside the range over rd.CommittedEntries and
+		// the slice is applied by exactly one call after the loop; no closure, no re-slicing
+		val := "collectThenApplyOnce"
+		ok := hr != nil && nApply >= 1 && appends >= 1 && rangeEnd >= 0
+		if !(nApply == 1 && argOK && lits == 0 && appends == 1 && !sliced && applyPos > rangeEnd) {
+			val = "other"
+		}
+		o.Set("peer.applyPartition", pg+":handleReady", val, ok, "collectThenApplyOnce")
+
+		// LinearizableRead: a closed read channel (Peer.Close) is an error, never index 0
+		lr := pf.Func("Peer.LinearizableRead")
+		checks, found := false, false
+		if lr != nil && lr.Body != nil {
+			ast.Inspect(lr.Body, func(x ast.Node) bool {
+				cc, ok := x.(*ast.CommClause)
+				if !ok || cc.Comm == nil {
+					return true
+				}
+				src := pf.Src(cc.Comm)
+				if strings.HasSuffix(src, "<-ch") {
+					found = true
+					if src == "idx, ok := <-ch" && len(cc.Body) > 0 && pf.Src(cc.Body[0]) == "if !ok { return 0, errPeerStopped }" {
+						checks = true
+					}
+				}
+				return true
+			})
+		}
+		o.Set("peer.readChecksClosed", pg+":LinearizableRead", fmt.Sprint(checks), found, "true")
+	}
+
 	f := o.Facts
 	lean := fmt.Sprintf(`-- GENERATED by /verif/extract/cmd/cluster from the current /repo working tree. Do not edit.
 import NoKVModel.Cluster.Pipeline
@@ -475,18 +563,19 @@ namespace NoKV.Generated.Cluster
 open NoKV NoKV.Cluster
 
 def pipeCfg : PipeCfg :=
-  { matchProposer := %s, completeDeletes := %s, regRejectsDup := %s }
+  { matchProposer := %s, completeDeletes := %s, regRejectsDup := %s, applyEachOnce := %s }
 
 def svcCfg : SvcCfg :=
   { val := { leaderOp := .%s, leaderConst := %s, rejectReturns := %s },
     read := { readIndexFirst := %s, waitsApplied := %s, quorumPerRead := %s } }
 
 end NoKV.Generated.Cluster
-`, f["pipe.applyChecksProposer"], f["pipe.completeDeletes"], f["pipe.registerRejectsDup"],
+`, fmt.Sprint(f["pipe.applyChecksProposer"] == "true" && f["propose.stampsProposer"] == "true"), f["pipe.completeDeletes"], f["pipe.registerRejectsDup"],
+		fmt.Sprint(f["peer.applyPartition"] == "collectThenApplyOnce" && f["peer.applyInOrder"] == "true" && f["pipe.applySkips"] == "nonNormal,empty"),
 		f["val.leaderOp"], leanState(f["val.leaderConst"]), f["val.rejectReturns"],
 		f["read.readIndexFirst"],
 		fmt.Sprint(f["read.waitsApplied"] == "true" && f["peer.waitAppliedExact"] == "true" && f["peer.waitAppliedUsesMark"] == "true"),
-		fmt.Sprint(f["peer.readOnlyOption"] == "safe" && f["peer.readIndexPerRead"] == "true" && f["peer.readIndexViaRaft"] == "true"))
+		fmt.Sprint(f["peer.readOnlyOption"] == "safe" && f["peer.readIndexPerRead"] == "true" && f["peer.readIndexViaRaft"] == "true" && f["peer.readChecksClosed"] == "true"))
 	o.Write(*jsonOut, *leanOut, lean)
 }
 
